@@ -343,7 +343,7 @@ def monitor (sc : Scenario) (o : Obs) : Option Clause :=
 /-- What the model says of a scenario: `runCancel` (pings, closing instant), `warnsCancel`, `endAt`.
 `shut` and `wblk` depend on the peer and the transport, not on the loop: they are copied from the
 implementation's observation (`env`). -/
-def obsOf (sc : Scenario) (env : Option SessObs) : Obs :=
+def modelObs (sc : Scenario) (env : Option SessObs) : Obs :=
   let s := runCancel sc.I sc.t0 sc.scripts sc.tc
   let to : Deadlines :=
     if sc.real ∨ s.pings.isEmpty then .none else .all (Generated.KeepAlive.pingTimeout sc.I)
